@@ -15,8 +15,6 @@ package main
 import (
 	"os"
 	"runtime"
-
-	hook "github.com/pion/rtcp/zz_simhook"
 )
 
 const (
@@ -91,7 +89,9 @@ var (
 	sGCRate    uint64
 	sGCFired   uint64
 	sDelivered uint64
-	sLockWaits uint64 // times a task found a lock held by a descheduled task
+	sLockWaits uint64            // times a task found a lock held by a descheduled task
+	sTaskG     [maxTasks]uintptr // goroutine identity of every task
+	sForeign   uint64            // hook calls from goroutines the simulator does not own
 	sPrioFloor int32
 
 	// strategy parameters
@@ -153,6 +153,13 @@ func mixHash(a, b uint64) {
 //
 //go:norace
 func yieldHook(site int) {
+	if sActive && (sCur < 0 || sCur >= maxTasks || getg() != sTaskG[sCur]) {
+		// Called by a goroutine the simulator does not own (a finalizer, a timer callback, a goroutine
+		// started by the tree under test): it is not the task holding the token, so it must neither be
+		// scheduled nor touch any per-task state.  It runs under the Go scheduler like in production.
+		sForeign++
+		return
+	}
 	if !sActive {
 		if site == -2 {
 			runtime.Gosched() // a rewritten Lock loop outside a run: let the holder (a goroutine of the tree under test) proceed
@@ -165,14 +172,13 @@ func yieldHook(site int) {
 		return
 	}
 	if site == -2 {
-		blockedYield(sCur)
+		blockedYield(sCur, true)
 		return
 	}
-	if hook.NoPreempt > 0 {
-		// inside a sync.Once-style callback: no task switch until it returns
-		if site >= 0 && site < len(siteHit) {
-			siteHit[site]++
-		}
+	if site == -3 {
+		// the tree under test spins in a wait loop of its own (runtime.Gosched): let somebody else run if
+		// anybody can; if nobody can, the loop is waiting for a goroutine the simulator does not own
+		blockedYield(sCur, false)
 		return
 	}
 	if site >= 0 {
@@ -196,7 +202,7 @@ func yieldHook(site int) {
 // that was descheduled inside its critical section, so another task must run.
 //
 //go:norace
-func blockedYield(me int) {
+func blockedYield(me int, mustSwitch bool) {
 	sStep++
 	sLockWaits++
 	mixHash(uint64(me)+5000, sStep)
@@ -239,6 +245,10 @@ func blockedYield(me int) {
 	if next < 0 {
 		if sPendN > 0 {
 			deliverDue(true)
+			return
+		}
+		if !mustSwitch {
+			runtime.Gosched() // waiting for a goroutine the simulator does not own
 			return
 		}
 		// every other task is blocked or done while a lock is held: the tree under test deadlocks on its own
@@ -497,6 +507,7 @@ func pickForced(me int) int {
 //
 //go:norace
 func schedStart(me int) {
+	sTaskG[me] = getg()
 	for sCur != me {
 		runtime.Gosched()
 	}
@@ -652,7 +663,11 @@ func schedReset(n int, c *SchedConfig) {
 	sGCFired = 0
 	sDelivered = 0
 	sLockWaits = 0
+	sForeign = 0
 	sPrioFloor = -100
+	for i := range sTaskG {
+		sTaskG[i] = 0
+	}
 	sStepCap = c.StepCap
 	if sStepCap == 0 {
 		sStepCap = 400000
